@@ -90,7 +90,13 @@ func propC05(o *propOpts) *propResult {
 		res.eval(e.name+"|"+s, r.err == nil && n >= 5, func() any { return map[string]any{"entry": e.name, "input": s, "nodes": n} })
 		if d != "" {
 			if site := knownSite(s, r.nodes, "C05"); site != "" {
-				key = site
+				if s2 := neutralise(site, s); s2 != s {
+					if r2 := safeParse(e, s2); !r2.hung && r2.panicked == nil {
+						if _, _, d2 := c05Check(s2, r2.nodes, r2.err == nil); d2 == "" {
+							key = site
+						}
+					}
+				}
 			}
 			res.fail(key, s, e.name, d)
 		}
